@@ -334,10 +334,13 @@ func (svr *Service) loopLoginUntilSuccess(maxInterval time.Duration, firstLoginE
 			return false, err
 		}
 
+		// cfgMu is held until the new control is published: a reload (UpdateAllConfigurer) either
+		// happens before, and its configuration is the one read here, or afterwards, and is applied to
+		// the new control. Without this a reload arriving while the login completes was stored but never applied.
 		svr.cfgMu.RLock()
+		defer svr.cfgMu.RUnlock()
 		proxyCfgs := svr.proxyCfgs
 		visitorCfgs := svr.visitorCfgs
-		svr.cfgMu.RUnlock()
 		connEncrypted := true
 		if svr.clientSpec != nil && svr.clientSpec.Type == "ssh-tunnel" {
 			connEncrypted = false
@@ -381,17 +384,18 @@ func (svr *Service) loopLoginUntilSuccess(maxInterval time.Duration, firstLoginE
 }
 
 func (svr *Service) UpdateAllConfigurer(proxyCfgs []v1.ProxyConfigurer, visitorCfgs []v1.VisitorConfigurer) error {
+	// held across the update of the running control, see loopLoginUntilSuccess
 	svr.cfgMu.Lock()
+	defer svr.cfgMu.Unlock()
 	svr.proxyCfgs = proxyCfgs
 	svr.visitorCfgs = visitorCfgs
-	svr.cfgMu.Unlock()
 
 	svr.ctlMu.RLock()
 	ctl := svr.ctl
 	svr.ctlMu.RUnlock()
 
 	if ctl != nil {
-		return svr.ctl.UpdateAllConfigurer(proxyCfgs, visitorCfgs)
+		return ctl.UpdateAllConfigurer(proxyCfgs, visitorCfgs)
 	}
 	return nil
 }
